@@ -86,6 +86,12 @@ structure Res (σ : Type) where
   st : σ
   err : Option Err := none
 
+/-- lift a state-transforming call that may raise into `Except` -/
+def Res.toExcept {σ : Type} (r : Res σ) : Except Err σ :=
+  match r.err with
+  | some er => .error er
+  | none => .ok r.st
+
 namespace BP
 
 def names (b : BP) : List String := b.segs.map (·.name)
